@@ -133,10 +133,13 @@ class Renames(EvalableModel):
     """
 
     def get_renames_for_einsum(self, einsum_name: EinsumName) -> EinsumRename:
-        if einsum_name not in self.einsums:
+        rename = None
+        for einsum in self.einsums:
+            if einsum.name == einsum_name:
+                rename = copy.deepcopy(einsum)
+                break
+        if rename is None:
             rename = EinsumRename(name=einsum_name)
-        else:
-            rename = copy.deepcopy(self.einsums[einsum_name])
         for einsum in self.einsums:
             if einsum.name != "default":
                 continue
